@@ -253,6 +253,23 @@ func recShallow(x ast.Expr, f func(ast.Expr)) {
 func (r *Run) walkFields(fn *Func, info *types.Info, x ast.Expr, write bool, f func(*ast.SelectorExpr, *types.Var, *types.Named, bool)) {
 	x = ast.Unparen(x)
 	switch v := x.(type) {
+	case *ast.Ident:
+		// alias: a single-assignment local that holds a map / slice / pointer read from a field keeps
+		// denoting that field's storage (counter := h.counter; delete(counter, k) writes h.counter)
+		if obj := info.Uses[v]; obj != nil {
+			if _, isVar := obj.(*types.Var); isVar {
+				switch obj.Type().Underlying().(type) {
+				case *types.Map, *types.Slice, *types.Pointer:
+					if ds, ok := fn.Defs().singleDef(obj); ok && ds.kind == "assign" && !ds.multi && ds.rhs != nil {
+						if se, ok := ast.Unparen(ds.rhs).(*ast.SelectorExpr); ok {
+							if sel, ok := info.Selections[se]; ok && sel.Kind() == types.FieldVal {
+								r.walkFields(fn, info, se, write, f)
+							}
+						}
+					}
+				}
+			}
+		}
 	case *ast.SelectorExpr:
 		if sel, ok := info.Selections[v]; ok && sel.Kind() == types.FieldVal {
 			if fv, ok := sel.Obj().(*types.Var); ok {
@@ -494,10 +511,38 @@ func ruleGuardedBy(r *Run) {
 	}
 	guarded := 0
 	for _, k := range keys {
-		if !sharedOwners[k.owner] {
-			continue
-		}
 		name := k.owner + "." + k.field.Name()
+		if !sharedOwners[k.owner] {
+			hasOwnMutex := false
+			for n := range muts {
+				if n.Obj().Name() == k.owner {
+					hasOwnMutex = true
+				}
+			}
+			if !hasOwnMutex {
+				continue // plain value / per-connection type without a lock of its own
+			}
+			// per-connection object: only fields that are in fact lock-protected (every write holds a
+			// common exclusive lock) are checked here; the rest is confined to the connection's goroutines
+			var ws []fieldAccess
+			for _, a := range byField[k] {
+				if a.Write && !a.Fresh && !isConstructorLike(a.Fn) {
+					ws = append(ws, a)
+				}
+			}
+			lockedWrites := 0
+			for _, w := range ws {
+				for _, v := range w.Held {
+					if v == "W" {
+						lockedWrites++
+						break
+					}
+				}
+			}
+			if lockedWrites == 0 {
+				continue
+			}
+		}
 		as := byField[k]
 		var writes, reads []fieldAccess
 		for _, a := range as {
@@ -1003,4 +1048,68 @@ func ruleSplitCriticalSection(r *Run) {
 		}
 	}
 	r.Floor("E8a", "read-then-write pairs of one field inside one critical section", n, 6)
+}
+
+// ruleDeferUnlock (F6b): code that runs under the per-message recover (everything reachable from the
+// dispatch function) must release its locks with defer, or do nothing that can panic in between:
+// a recovered panic otherwise leaves the lock held for every other member of the session.
+func ruleDeferUnlock(r *Run) {
+	m := r.M()
+	if r.broken() {
+		return
+	}
+	d := r.Deep()
+	if d == nil || m.Dispatch == nil {
+		return
+	}
+	reach := r.reachableFrom(m.Dispatch)
+	n := 0
+	var fns []*Func
+	for f := range reach {
+		if f.Obj != nil && isRepoPkg(f.Pkg.Types) {
+			fns = append(fns, f)
+		}
+	}
+	sort.Slice(fns, func(i, j int) bool { return fns[i].Name < fns[j].Name })
+	for _, fn := range fns {
+		for pi, path := range r.Paths(fn) {
+			_ = pi
+			open := map[string]int{} // lock key -> index of the Lock event (explicitly released later)
+			deferred := map[string]bool{}
+			for i, ev := range path.Events {
+				op := r.lockOpOf(ev)
+				if op == nil {
+					continue
+				}
+				if ev.Kind == EvDefer {
+					deferred[op.Key] = true
+					continue
+				}
+				switch op.Op {
+				case "Lock", "RLock":
+					open[op.Key] = i
+					n++
+				case "Unlock", "RUnlock":
+					start, ok := open[op.Key]
+					if !ok || deferred[op.Key] {
+						continue
+					}
+					delete(open, op.Key)
+					risky := ""
+					for j := start + 1; j < i; j++ {
+						pe := path.Events[j]
+						if pe.Kind == EvCall && r.lockOpOf(pe) == nil {
+							if _, isBuiltin := pe.Callee.(*types.Builtin); isBuiltin {
+								continue
+							}
+							risky = r.P.EventStr(pe)
+						}
+					}
+					r.CheckT("F6b", fmt.Sprintf("%s:explicit-unlock[%s]", fn.Name, op.Key), risky == "", ev.Pos, &path,
+						"%s is released by an explicit unlock after %s: if that panics the per-message recover ends only this connection and the lock stays held, wedging every other user of it; release it with defer", op.Key, risky)
+				}
+			}
+		}
+	}
+	r.Floor("F6b", "lock acquisitions in code that runs under the per-message recover", n, 20)
 }
